@@ -55,22 +55,242 @@ def attempt(f):
 
 
 def observe(t):
-    """Run every accessor of the property on the real implementation."""
+    """Run every accessor of the property on the real implementation.  A plain Triangle is observed on
+    fresh copies (cached properties); a Derived case is observed LIVE on the object the library's own
+    operation returned, so that anything the operation carried over from its parent is seen."""
+    live = isinstance(t, Derived)
+    get = (lambda: t.child) if live else (lambda: fresh(t))
     o = {}
     o["cells"] = list(t.cells)
     o["aligned"] = month_aligned(t.cells)
-    for name in ["metadata", "periods", "evaluation_dates", "evaluation_date", "fields", "field_cell_counts",
-                 "field_slice_counts", "num_samples", "experience_gaps", "common_metadata",
-                 "metadata_differences", "is_disjoint", "is_slicewise_disjoint", "period_resolution",
-                 "eval_date_resolution"]:
-        o[name] = attempt(lambda: getattr(fresh(t), name))
-    o["lags_day"] = attempt(lambda: fresh(t).dev_lags("day"))
-    o["lags_month"] = attempt(lambda: fresh(t).dev_lags("month"))
-    o["semi_day"] = attempt(lambda: fresh(t).is_semi_regular("day"))
-    o["semi_month"] = attempt(lambda: fresh(t).is_semi_regular("month"))
-    o["reg_day"] = attempt(lambda: fresh(t).is_regular("day"))
-    o["reg_month"] = attempt(lambda: fresh(t).is_regular("month"))
+    for name in ACCESSOR_NAMES:
+        o[name] = attempt(lambda: getattr(get(), name))
+    o["lags_day"] = attempt(lambda: get().dev_lags("day"))
+    o["lags_month"] = attempt(lambda: get().dev_lags("month"))
+    o["semi_day"] = attempt(lambda: get().is_semi_regular("day"))
+    o["semi_month"] = attempt(lambda: get().is_semi_regular("month"))
+    o["reg_day"] = attempt(lambda: get().is_regular("day"))
+    o["reg_month"] = attempt(lambda: get().is_regular("month"))
     return o
+
+
+ACCESSOR_NAMES = ["metadata", "periods", "evaluation_dates", "evaluation_date", "fields", "field_cell_counts",
+                  "field_slice_counts", "num_samples", "experience_gaps", "common_metadata",
+                  "metadata_differences", "is_disjoint", "is_slicewise_disjoint", "period_resolution",
+                  "eval_date_resolution"]
+OBS_KEYS = ACCESSOR_NAMES + ["lags_day", "lags_month", "semi_day", "semi_month", "reg_day", "reg_month"]
+
+
+# ------------------------------------------------------------------ derived triangles
+class Derived:
+    """A triangle obtained from a parent through one of the library's own operations, AFTER every
+    accessor / taxonomy predicate of the parent (and of any second operand) has been read."""
+
+    def __init__(self, parent_cells_json, derivation, child):
+        self.parent_json = parent_cells_json
+        self.derivation = derivation
+        self.child = child
+        self.cells = list(child.cells)
+
+    def __len__(self):
+        return len(self.cells)
+
+
+def warm(t):
+    """populate every cached_property of t (and call the taxonomy methods)"""
+    for name in ACCESSOR_NAMES + ["slices", "is_empty", "is_incremental", "is_multi_slice"]:
+        attempt(lambda: getattr(t, name))
+    for u in ("day", "month"):
+        attempt(lambda: t.dev_lags(u))
+        attempt(lambda: t.is_semi_regular(u))
+        attempt(lambda: t.is_regular(u))
+    attempt(lambda: t.right_edge)
+
+
+def derive(parent, d):
+    """Apply derivation d (JSON-able dict) to an already warmed parent."""
+    from bermuda import Triangle
+
+    op = d["op"]
+    dt = lambda k: D.fromisoformat(d[k]) if d.get(k) else None  # noqa: E731
+    if op == "filter_period_days_lt":
+        return parent.filter(lambda c: (c.period_end - c.period_start).days < d["n"])
+    if op == "filter_period_days_ge":
+        return parent.filter(lambda c: (c.period_end - c.period_start).days >= d["n"])
+    if op == "filter_eval_le":
+        return parent.filter(lambda c: c.evaluation_date <= dt("date"))
+    if op == "filter_slice":
+        m = parent.metadata[d["i"] % len(parent.metadata)]
+        return parent.filter(lambda c: c.metadata == m)
+    if op == "filter_not_slice":
+        m = parent.metadata[d["i"] % len(parent.metadata)]
+        return parent.filter(lambda c: c.metadata != m)
+    if op == "clip":
+        return parent.clip(min_eval=dt("min_eval"), max_eval=dt("max_eval"), min_period=dt("min_period"),
+                           max_period=dt("max_period"))
+    if op == "select":
+        return parent.select(d["keys"])
+    if op == "slice":
+        return list(parent.slices.values())[d["i"] % len(parent.slices)]
+    if op == "getitem":
+        return parent[d["a"]:d["b"]]
+    if op == "right_edge":
+        return parent.right_edge
+    if op == "add_split":  # both operands are read completely, then concatenated
+        a, b = parent[:d["k"]], parent[d["k"]:]
+        warm(a)
+        warm(b)
+        return a + b
+    if op == "add_filtered":  # (disjoint part, read) + (the rest, read): disjoint -> possibly overlapping
+        a = parent.filter(lambda c: (c.period_end - c.period_start).days < d["n"])
+        b = parent.filter(lambda c: (c.period_end - c.period_start).days >= d["n"])
+        warm(a)
+        warm(b)
+        return a + b
+    if op == "chain":  # two subsetting steps, reading everything in between
+        mid_ = derive(parent, d["first"])
+        warm(mid_)
+        return derive(mid_, d["second"])
+    raise ValueError(op)
+
+
+def make_derived(parent_cells, d):
+    from bermuda import Triangle
+
+    with warnings.catch_warnings():
+        warnings.simplefilter("ignore")
+        parent = Triangle(list(parent_cells))
+        warm(parent)
+        child = derive(parent, d)
+    return Derived(tri_to_json(parent_cells), d, child)
+
+
+def canon_out(key, kv):
+    """strict canonical form of one observed accessor result"""
+    k, v = kv
+    if k == "err":
+        return ("err", type(v).__name__)
+
+    def c(x):
+        if hasattr(x, "risk_basis") and hasattr(x, "loss_details"):
+            return ("meta",) + tuple(ct.canon_meta(x, ordered=False))
+        if isinstance(x, (list, tuple)):
+            return (type(x).__name__,) + tuple(c(y) for y in x)
+        if isinstance(x, dict):
+            return ("dict",) + tuple((a, c(b)) for a, b in x.items())
+        if isinstance(x, datetime.date):
+            return ("date", x.isoformat())
+        return ct.canon_value(x)
+
+    return ("ok", c(v))
+
+
+def derivations(rng, t):
+    """A handful of derivations suited to triangle t (JSON-able)."""
+    cells = list(t.cells)
+    if not cells:
+        return [{"op": "clip"}, {"op": "right_edge"}, {"op": "getitem", "a": 0, "b": 0}]
+    lens = sorted({(c.period_end - c.period_start).days for c in cells})
+    evs = sorted({c.evaluation_date for c in cells})
+    starts = sorted({c.period_start for c in cells})
+    ends = sorted({c.period_end for c in cells})
+    fields = sorted({f for c in cells for f in c.values})
+    n = len(cells)
+    out = []
+    if len(lens) > 1:
+        cut = rng.choice(lens[1:])
+        out += [{"op": "filter_period_days_lt", "n": cut}, {"op": "filter_period_days_ge", "n": cut},
+                {"op": "add_filtered", "n": cut}]
+    out += [
+        {"op": "clip", "max_period": rng.choice(ends).isoformat()},
+        {"op": "clip", "min_period": rng.choice(starts).isoformat()},
+        {"op": "clip", "min_eval": rng.choice(evs).isoformat()},
+        {"op": "clip", "max_eval": rng.choice(evs).isoformat()},
+        {"op": "clip", "min_period": rng.choice(starts).isoformat(), "max_eval": rng.choice(evs).isoformat()},
+        {"op": "filter_eval_le", "date": rng.choice(evs).isoformat()},
+        {"op": "filter_slice", "i": rng.randrange(4)}, {"op": "filter_not_slice", "i": rng.randrange(4)},
+        {"op": "slice", "i": rng.randrange(4)},
+        {"op": "getitem", "a": rng.randrange(0, n), "b": rng.randrange(0, n + 1)},
+        {"op": "right_edge"},
+        {"op": "add_split", "k": rng.randrange(0, n + 1)},
+        {"op": "chain", "first": {"op": "clip", "max_period": rng.choice(ends).isoformat()},
+         "second": {"op": "clip", "min_period": rng.choice(starts).isoformat()}},
+    ]
+    if fields:
+        out.append({"op": "select", "keys": rng.sample(fields, rng.randint(1, len(fields)))})
+    return out
+
+
+def quarterly_plus_annual(rng):
+    """quarterly cells plus an overlapping annual (or half-year) cell: not disjoint as a whole, regular
+    once the long period is dropped -- and the reverse composition"""
+    from bermuda import Cell, CumulativeCell, Metadata, Triangle
+
+    y = rng.randint(1995, 2040)
+    cls = rng.choice([Cell, CumulativeCell])
+    evs = [D(y, 12, 31), D(y + 1, 3, 31)] + ([D(y + 1, 6, 30)] if rng.random() < 0.5 else [])
+    ms = [Metadata()] if rng.random() < 0.6 else [Metadata(country="US"), Metadata(country="DE")]
+    cells = []
+    for m in ms:
+        for q in range(4):
+            ps = D(y, 3 * q + 1, 1)
+            pe = (D(y + (3 * q + 3) // 12, (3 * q + 3) % 12 + 1, 1) - ONE)
+            for e in evs:
+                cells.append(cls(period_start=ps, period_end=pe, evaluation_date=e, values={"paid_loss": 10.0 * (q + 1)}, metadata=m))
+        a, b = rng.choice([(D(y, 1, 1), D(y, 12, 31)), (D(y, 1, 1), D(y, 6, 30)), (D(y, 4, 1), D(y, 12, 31))])
+        for e in evs:
+            cells.append(cls(period_start=a, period_end=b, evaluation_date=e, values={"paid_loss": 100.0}, metadata=m))
+    return Triangle(cells)
+
+
+def build_derived(ctx, n):
+    """The derived-triangle stream: (label, Derived)."""
+    rng = random.Random(ctx.seed * 998244353 + 131)
+    ag = AccGen(rng)
+    out = []
+    # directed: the documented shape, through every subsetting operation, both directions
+    with warnings.catch_warnings():
+        warnings.simplefilter("ignore")
+        for _ in range(6):
+            t = quarterly_plus_annual(rng)
+            y = t.cells[0].period_start.year
+            for d in [{"op": "filter_period_days_lt", "n": 100}, {"op": "clip", "max_period": D(y, 9, 30).isoformat()},
+                      {"op": "clip", "min_period": D(y, 7, 1).isoformat()}, {"op": "add_filtered", "n": 100},
+                      {"op": "filter_period_days_ge", "n": 100}, {"op": "getitem", "a": 0, "b": 4},
+                      {"op": "chain", "first": {"op": "clip", "max_period": D(y, 9, 30).isoformat()},
+                       "second": {"op": "clip", "min_period": D(y, 4, 1).isoformat()}}]:
+                out.append(("derived:" + d["op"] + "/quarterly+annual", make_derived(t.cells, d)))
+        layouts = ["erratic", "overlap1", "regular", "semi_gap", "irregular", "offgrid", "daily", "unequal_days", "gen",
+                   "same_month_evals", "adjacent_days"]
+        while len(out) < n:
+            try:
+                t, info = ag.triangle(layout=layouts[len(out) % len(layouts)])
+            except Exception:  # noqa: BLE001
+                continue
+            ds = derivations(rng, t)
+            for d in rng.sample(ds, min(len(ds), 3)):
+                try:
+                    out.append((f"derived:{d['op']}/{info['layout']}/{info['n_slices']}sl", make_derived(t.cells, d)))
+                except Exception as ex:  # noqa: BLE001  (an operation refusing its input is not C13's business)
+                    ctx.hist(f"derived-refused:{type(ex).__name__}")
+    return out[:n]
+
+
+def fresh_differences(t, o):
+    """Derived case: every observed accessor must equal that of a freshly constructed Triangle with the
+    same cells (strict comparison)."""
+    from bermuda import Triangle
+
+    with warnings.catch_warnings():
+        warnings.simplefilter("ignore")
+        ref = observe(Triangle(list(t.cells)))
+    bad = []
+    for key in OBS_KEYS:
+        a, b = canon_out(key, o[key]), canon_out(key, ref[key])
+        if a != b:
+            bad.append((key, f"derived triangle ({t.derivation}) reports {o[key][1]!r}, a freshly constructed "
+                             f"Triangle of the same cells reports {ref[key][1]!r}"))
+    return bad
 
 
 class Unexpected(Exception):
@@ -420,6 +640,9 @@ def run_cases(ctx, cases, tag="cases"):
         ctx.hist("layout:" + label.split("/")[0])
         ctx.hist(f"slices:{len(o['metadata'][1]) if o['metadata'][0] == 'ok' else '?'}")
         fails = oracles(o)
+        if isinstance(t, Derived):
+            fails = fails + fresh_differences(t, o)
+            ctx.hist("derived-op:" + t.derivation["op"])
         for acc, msg in fails[:3]:
             oracle_fail.append((i, label, t, f"{acc}: {msg}"))
         if pr is None:
@@ -439,7 +662,7 @@ def run_cases(ctx, cases, tag="cases"):
         chunk.append((i, txt))
         kept.append(i)
         if len(o["cells"]) >= 2 or o["evaluation_date"][0] == "err" or o["num_samples"][0] == "err":
-            ctx.nontriv(ct.canon_tri(t))
+            ctx.nontriv((ct.canon_tri(t), repr(getattr(t, "derivation", None))))
         if i < 3:
             ctx.sample({"label": label, "cells": len(o["cells"]),
                         "periods": [[str(a), str(b)] for a, b in o["periods"][1]] if o["periods"][0] == "ok" else None,
@@ -495,7 +718,12 @@ def run(ctx):
         "with metadata differing in one or several attributes, Python-equal-but-not-identical metadata (1000 vs "
         "1000.0, 1 vs True), partially shared detail keys, mixed field coverage per cell / per slice, int / dyadic "
         "float / int64- and float64-sample values incl. inconsistent sample sizes; plus the directed boundary "
-        "cases of the property text. Every case: all accessors run on the real Triangle; Coq compares them with "
+        "cases of the property text; plus a DERIVED stream: every accessor and taxonomy predicate of a parent (and of "
+        "any second operand) is read first, then children are produced by filter / clip(min/max eval, min/max period) / "
+        "select / slices / t[a:b] / right_edge / + / two chained clips (incl. quarterly cells + an overlapping annual "
+        "period filtered to disjoint, and disjoint + overlapping composed back) and observed LIVE on the returned "
+        "object, compared with the model on the child's cells and strictly with a fresh Triangle(list(child.cells)). "
+        "Every case: all accessors run on the real Triangle; Coq compares them with "
         "the model and evaluates the executable specs on the implementation's outputs; independent Python oracles "
         "(all-pairs overlap, brute-force gcd, loops) run on every case. Non-trivial = distinct canonical "
         "triangle with >= 2 cells or an error branch hit.")
@@ -504,7 +732,8 @@ def run(ctx):
         "the check compares `metadata` with the model's first-occurrence list and tests sortedness under the "
         "implementation's own <",
         "month-unit statements are about month-aligned cells, where dev_lag_months is the integer month-id "
-        "difference (C12: lag_month_ends_exact); on other cells only day-unit statements are tied",
+        "difference (C12: lag_month_ends_exact, 1970-2100; F10 before 1970); on other cells only day-unit statements "
+        "are tied; the month-unit closed forms hold for every date of year >= 1 (Proofs/CalendarP.v)",
         "the key order of common_metadata's details (iteration order of a Python set) is not modelled: compared "
         "up to key order, strictly on kinds and values",
     ]
@@ -521,6 +750,7 @@ def run(ctx):
     rc, out = ctx.coqc(ctx.build / "C13_Tie.v", timeout=300)
     ctx.obligation("C13_Tie.v compiles", rc == 0, out)
     cases = build_cases(ctx, 1400 if ctx.quick else 9000)
+    cases += build_derived(ctx, 500 if ctx.quick else 3000)
     ofail, mism = run_cases(ctx, cases)
     ctx.log(f"{len(cases)} cases: {len(ofail)} oracle failures, {len(mism)} model/spec mismatches")
     ctx.obligation("correspondence model = implementation and specs hold on implementation outputs", not mism,
@@ -535,17 +765,23 @@ def report(ctx, ofail, mism):
         if key in seen:
             continue
         seen.add(key)
-        small = shrink(t, key)
-        ctx.violation("impl-violation", f"{what} [{label}]",
-                      {"accessor": key, "label": label, "cells": tri_to_json(small)}, found_input=True)
+        if isinstance(t, Derived):
+            ctx.violation("impl-violation", f"{what} [{label}]",
+                          {"accessor": key, "label": label, "cells": tri_to_json(t), "parent_cells": t.parent_json,
+                           "derivation": t.derivation}, found_input=True)
+        else:
+            small = shrink(t, key)
+            ctx.violation("impl-violation", f"{what} [{label}]",
+                          {"accessor": key, "label": label, "cells": tri_to_json(small)}, found_input=True)
         if len(seen) >= 4:
             break
     if mism and not ofail:
         # a spec:* failure is the property's executable specification failing on the real output
         for i, label, t, chk in mism:
             if t is not None and chk.startswith("spec:"):
+                extra = {"parent_cells": t.parent_json, "derivation": t.derivation} if isinstance(t, Derived) else {}
                 ctx.violation("impl-violation", f"executable specification {chk} fails on the implementation's output [{label}]",
-                              {"accessor": chk, "label": label, "cells": tri_to_json(t)}, found_input=True)
+                              {"accessor": chk, "label": label, "cells": tri_to_json(t), **extra}, found_input=True)
                 return
         i, label, t, chk = mism[0]
         ctx.violation("correspondence", f"model and implementation disagree on {chk} [{label}]; no oracle failed",
@@ -588,9 +824,16 @@ def replay(ctx, data):
         return 1
     with warnings.catch_warnings():
         warnings.simplefilter("ignore")
-        t = tri_from_json(data["cells"])
+        if data.get("derivation"):
+            parent = tri_from_json(data["parent_cells"])
+            t = make_derived(parent.cells, data["derivation"])
+            print(f"derived through {data['derivation']} from a parent with {len(parent)} cells (all parent accessors read first)")
+        else:
+            t = tri_from_json(data["cells"])
     o = observe(t)
     fails = oracles(o)
+    if isinstance(t, Derived):
+        fails = fails + fresh_differences(t, o)
     print(f"triangle with {len(t)} cells; periods {o['periods'][1] if o['periods'][0] == 'ok' else o['periods']}")
     for a, m in fails:
         print(f"  FAILS {a}: {m}")
